@@ -3193,9 +3193,9 @@ func (c *converter) fieldRow(chain []*ast.Field) ([]row, []*ast.CommentGroup) {
 	}
 	switch {
 	case isBinChain && binHasTrailing && c.chainAligns(bin, binArms):
-		valDoc = appendAttrs(c.binaryChainTable(bin, binArms, joinTrailing()), leaf.Attrs)
+		valDoc = c.binaryChainTable(bin, binArms, attrsBeforeTrailing(leaf.Attrs, joinTrailing()))
 	case isSelChain && selHasTrailing:
-		valDoc = appendAttrs(c.selectorTableExpr(selArms, joinTrailing()), leaf.Attrs)
+		valDoc = c.selectorTableExpr(selArms, attrsBeforeTrailing(leaf.Attrs, joinTrailing()))
 	case leafValueSlotsFiltered:
 		valDoc = c.withCommentsSlots(leaf.Value, c.exprCore(leaf.Value), leafValueSlots)
 		attrsDoc = attrsSpaced(leaf.Attrs)
@@ -3668,6 +3668,19 @@ func appendAttrs(val doc, attrs []*ast.Attribute) doc {
 		val = cats(val, spaceLit, stringLit(attr.Text))
 	}
 	return val
+}
+
+// attrsBeforeTrailing places attrs ahead of the trailing // comment so the
+// comment cannot swallow them.
+func attrsBeforeTrailing(attrs []*ast.Attribute, trailing doc) doc {
+	a := attrsSpaced(attrs)
+	switch {
+	case a == nil:
+		return trailing
+	case trailing == nil:
+		return a
+	}
+	return cats(a, spaceLit, trailing)
 }
 
 // attrsSpaced returns a Doc rendering attrs joined by spaces, or nil
